@@ -2,6 +2,7 @@ package props
 
 import (
 	"fmt"
+	"go/token"
 	"math/big"
 	"strings"
 
@@ -39,6 +40,34 @@ func slotAccesses(fn *ssa.Function) []*ssa.IndexAddr {
 		}
 	}
 	return out
+}
+
+// reachesOnEveryPath: every path from block a to a return passes through block b.
+func reachesOnEveryPath(a, b *ssa.BasicBlock) bool {
+	if a == b {
+		return true
+	}
+	seen := map[*ssa.BasicBlock]bool{}
+	var walk func(x *ssa.BasicBlock) bool
+	walk = func(x *ssa.BasicBlock) bool {
+		if x == b {
+			return true
+		}
+		if seen[x] {
+			return true
+		}
+		seen[x] = true
+		if len(x.Succs) == 0 {
+			return false // left the function without passing b
+		}
+		for _, sx := range x.Succs {
+			if !walk(sx) {
+				return false
+			}
+		}
+		return true
+	}
+	return walk(a)
 }
 
 func runC02(c *an.Ctx) {
@@ -97,6 +126,65 @@ func runC02(c *an.Ctx) {
 			}
 			stores = append(stores, sst{st, len(cls.Path) == 3, fi.Term(st.Val)})
 		}
+	}
+	// a slot that is worked on in a local copy and written back (cur := slot; ...; cur = r / cur.PowerOutput = 1; ...;
+	// slot = cur): the stores into the copy are the stores into the slot, provided the copy was taken from this very slot
+	// and every store into it is followed by the write-back on every path
+	{
+		var out []sst
+		for _, s := range stores {
+			ld, isLd := s.st.Val.(*ssa.UnOp)
+			var al *ssa.Alloc
+			if isLd && ld.Op == token.MUL {
+				al, _ = ld.X.(*ssa.Alloc)
+			}
+			if !s.whole || al == nil {
+				out = append(out, s)
+				continue
+			}
+			slotAddr := fi.Term(s.st.Addr)
+			var virt []sst
+			okCopy, okBack := false, true
+			for _, r := range *al.Referrers() {
+				var st *ssa.Store
+				whole := false
+				switch x := r.(type) {
+				case *ssa.Store:
+					if x.Addr == ssa.Value(al) {
+						st, whole = x, true
+					}
+				case *ssa.FieldAddr:
+					if x.Referrers() != nil {
+						for _, r2 := range *x.Referrers() {
+							if fs, ok := r2.(*ssa.Store); ok && fs.Addr == ssa.Value(x) {
+								virt = append(virt, sst{fs, false, fi.Term(fs.Val)})
+								if !reachesOnEveryPath(fs.Block(), s.st.Block()) {
+									okBack = false
+								}
+							}
+						}
+					}
+				}
+				if st == nil {
+					continue
+				}
+				vt := fi.Term(st.Val)
+				if vt.K == an.KLoad && len(vt.A) == 1 && vt.A[0].Key() == slotAddr.Key() && an.Dominates(st, s.st) {
+					okCopy = true // the initial copy of the slot
+					continue
+				}
+				virt = append(virt, sst{st, whole, vt})
+				if !reachesOnEveryPath(st.Block(), s.st.Block()) {
+					okBack = false
+				}
+			}
+			if okCopy && okBack && len(virt) > 0 {
+				out = append(out, virt...)
+			} else {
+				out = append(out, s)
+			}
+		}
+		stores = out
 	}
 	c.Count("STORE", len(stores))
 	c.Floor("STORE", 2)
